@@ -1,16 +1,25 @@
 CHECK = {
     "level": "model_checking",
     "rule": ("part rays: zoo of geometries (orangeinp-built nested/rotated/reflected/non-convex + "
-             "bundled .org.json without involutes) x start lattice n^3 (points the oracle cannot "
-             "locate unambiguously or outside the world dropped) x 26 lattice + irrational "
-             "directions; each ray traced with find_next_step/move_to_boundary/cross_boundary to "
-             "the world exit. part ops: explicit-state depth-bounded search over operation "
-             "histories {find, find(max) x2, move_internal(dist) x3, move_internal(pos), "
-             "move_to_boundary, cross_boundary, set_dir x (reverse + 10/14 global directions)} "
+             "bundled .org.json without involutes, incl. hex-array) x {start lattice n^3 x 26 lattice "
+             "+ 6/12 irrational directions; one oracle-placed start inside every distinct oracle "
+             "volume chain (every volume of every nested universe instance found by a 17^3/25^3 scan "
+             "+ per-universe critical-coordinate grids) x 6/25 directions}; each ray traced with "
+             "find_next_step/move_to_boundary/cross_boundary to the world exit (position after "
+             "move_to_boundary = start + distance x direction and on a surface); plus an "
+             "initialise-only lattice 15^3/25^3 (volume chain + per-level positions vs the oracle). "
+             "part ops: explicit-state depth-bounded search over operation histories {find, "
+             "find(max) x2, move_internal(dist) x3, move_internal(pos), move_to_boundary, "
+             "cross_boundary, set_dir x (reverse + 10/14 global directions + on surfaces of a nested "
+             "level 8/16 directions 3(/12) degrees off the tangent plane of the ORACLE's normal)} "
              "restricted to the documented call order, <= 2 direction changes per history, with "
-             "snapshot/restore of the real navigation state and sharing of identical states. "
-             "Oracle = point location from the OrangeInput definition (long double surfaces, own "
-             "RPN logic, own daughter/transform/array descent). non-trivial = ray with >= 2 "
+             "snapshot/restore of the real navigation state and sharing of identical states; roots = "
+             "the oracle-placed chain representatives (<= 10 per geometry in quick) x 1/2 directions + "
+             "start lattice 2^3/3^3 x 3/2 directions, visited round-robin over the geometries; a "
+             "state whose position an internal move put within 10 tol of a surface is not expanded; at "
+             "every new state the used slot is re-initialised at the root and must reproduce the root "
+             "state. Oracle = point location from the OrangeInput definition (long double surfaces, "
+             "own RPN logic, own daughter/transform/array descent). non-trivial = ray with >= 2 "
              "crossings and a distinct volume sequence / a distinct search root."),
     "assumptions": [
         "oracle makes no claim within 10 tol of a surface; probes 100 tol off a crossing: "
@@ -18,14 +27,19 @@ CHECK = {
         "no-skipped-boundary is decided at a 16-point subdivision of each segment",
         "geometries with involute surfaces are not judged (oracle does not implement them)",
         "set_dir directions exactly tangent to the surface the track sits on are not explored (the "
-        "alphabet is tilted off the axes); near-tangent ones are",
+        "alphabet is tilted off the axes); near-tangent ones (1-3 degrees) are",
         "a re-entrant {0, boundary} answer after a completed crossing may only be followed by "
         "set_dir (FieldPropagator's use); histories outside the documented call order are not "
         "explored",
+        "find_next_step(max) with max == distance: either truncation is accepted",
+        "volumes the oracle scan does not find (thinner than the scan lattice and not delimited by "
+        "axis-aligned/centred surfaces of their own universe) get no root of their own",
     ],
-    "bounds": {"quick": {"ray_lattice": 4, "ops_depth": 6, "ops_setdir": 2, "ops_node_cap": 400000},
-               "thorough": {"ray_lattice": 7, "ops_depth": 7, "ops_setdir": 2,
-                            "ops_node_cap": 3000000}},
+    "bounds": {"quick": {"ray_lattice": 4, "init_lattice": 15, "scan_lattice": 17, "ops_depth": 6,
+                         "ops_setdir": 2, "ops_node_cap": 400000, "ops_chain_roots_per_geometry": 10},
+               "thorough": {"ray_lattice": 7, "init_lattice": 25, "scan_lattice": 25, "ops_depth": 7,
+                            "ops_setdir": 2, "ops_node_cap": 3000000,
+                            "ops_chain_roots_per_geometry": "all"}},
     "parts": [
         {"name": "rays", "harness": "c03_nav", "flavour": "rel",
          "shards": {"quick": 16, "thorough": 16}, "deadline": {"quick": 100, "thorough": 900}},
